@@ -145,6 +145,27 @@ func init() {
 							}
 						}
 					}
+				case "rogue", "shufflesites", "addgaps", "mutate":
+					// which columns can be touched at all: every column must be, sooner or later
+					c, _ := al.Clone()
+					switch what {
+					case "rogue":
+						c.SimulateRogue(1.0, parseFrac(par))
+					case "shufflesites":
+						c.ShuffleSites(parseFrac(par), 0, false)
+					case "addgaps":
+						c.AddGaps(parseFrac(par), 1.0)
+					case "mutate":
+						c.Mutate(parseFrac(par))
+					}
+					o := rowsOf(c)
+					for i := range o {
+						for j := 0; j < len(o[i].Seq) && j < len(in[i].Seq); j++ {
+							if o[i].Seq[j] != in[i].Seq[j] {
+								seen[itoa(j)] = true
+							}
+						}
+					}
 				case "shuffle":
 					c, _ := al.Clone()
 					c.ShuffleSequences()
